@@ -9,7 +9,7 @@ REGISTRY = {
     'C07': ['strand'],
     'C08': ['thread_pool'],
     'C09': ['when'],
-    'C10': ['any'],
+    'C10': ['any', 'when'],
     'C11': ['wait', 'event', 'base_core'],
     'C12': ['core', 'handles'],
     'C13': ['coro', 'base_core', 'event'],
@@ -145,8 +145,10 @@ CLAIMS = {
                 'LastFail: 2*count countdown with value bit) with a ghost `elected` set inside the winning atomic step: each Consume is proved '
                 'to call Promise::Set exactly when it was elected, carrying its own outcome; LastFail: a failure is elected only as the last '
                 'input with no value arrived, a value iff it is the first value; FirstFail: first value at once, else the failure that won '
-                'empty->error is saved and published by the destructor; initial state from the constructor text satisfies the invariant.',
-        'note': 'SC atomics; inputs are consumed exactly once each (C09 contract) is the rely; Promise::Set is the C01 producer contract; '
+                'empty->error is saved and published by the destructor; initial state from the constructor text satisfies the invariant.  The combinator plumbing '
+                'WhenAny shares with WhenAll (unit when: When entry functions with the translated combinator selection, registration loops / SetCore, callback '
+                'Impl / Here / Next, Consume dispatch per ConsumePolicy x CorePolicy) is checked under this property too.',
+        'note': 'SC atomics; inputs are consumed exactly once each (plumbing jobs of unit when) is the rely; Promise::Set is the C01 producer contract; '
                 'release of inputs (Retire) is C09.',
         'design': 'DESIGN.md 6 C10, 5.B, A.5',
     },
